@@ -29,11 +29,20 @@ TEMPLATES = [
     [{"op": "log", "msg": "A"}, {"op": "child", "body": [{"op": "log", "msg": "in-1"}, {"op": "invoke", "payload": "i5", "catch": True},
                                                        {"op": "log", "msg": "in-2"}], "limit": 200, "summary": "", "catch": True},
      {"op": "log", "msg": "B"}, {"op": "wait", "secs": 2}, {"op": "log", "msg": "C"}],
+    # a callback created early and awaited late: while it is outstanding it is visited on every replay without being
+    # completed work - the replay boundary is the last COMPLETED operation (the wait), not a count of visited ones
+    [{"op": "log", "msg": "A"}, {"op": "cbnew", "slot": 0}, {"op": "log", "msg": "B"}, _step("s"), {"op": "log", "msg": "C"},
+     {"op": "wait", "secs": 1}, {"op": "log", "msg": "D"}, _step("t"), {"op": "log", "msg": "E"}, {"op": "wait", "secs": 1},
+     {"op": "log", "msg": "F"}, {"op": "cbres", "slot": 0, "catch": True}, {"op": "log", "msg": "G"}],
 ]
 
 
 def run(ctx):
     corpus = [(t, 1000 + 17 * k) for t in TEMPLATES for k in range(ctx.scale(14, 60))]
+    # the last template with the callback kept outstanding while the waits complete (scripted events; one that is not
+    # enabled in a round is skipped)
+    waits_only = [[("waitDone", [3], None), ("waitDone", [5], None)]] * 5 + [[("callbackDone", [1], {"k": "succeeded", "v": "R:ok"})]] * 30
+    corpus += [(TEMPLATES[-1], 5000 + 13 * k, waits_only) for k in range(ctx.scale(8, 40))]
     comp_engine.run(ctx, "C17", crash_p=0.2, fault_p=0.05, corpus=corpus)
 
 
